@@ -111,7 +111,8 @@ def norm_type(t):
     if k == "fn":
         if t.get("va"):
             return {"k": "fn", "va": True}
-        return {"k": k, "ps": [{"n": p["n"], "t": norm_type(p["t"])} for p in t["ps"]], "r": norm_type(t["r"])}
+        # (a parameter which takes every argument - throw's - is written `never` in HmsTypes and `unknown` by the analyzer)
+        return {"k": k, "ps": [{"n": p["n"], "t": {"k": "never"} if p["t"]["k"] == "unknown" else norm_type(p["t"])} for p in t["ps"]], "r": norm_type(t["r"])}
     return {"k": k}
 
 
